@@ -1,7 +1,7 @@
 """C19 — An error while processing any tile is reported, never swallowed by parallelism."""
 PROPERTY = "C19"
 LEVEL = "other"
-CONTRACT_MODULES = ["contracts.specfuns", "contracts.lemmas_desc", "contracts.pyramid", "contracts.parallel", "contracts.walk", "contracts.reducer", "contracts.lemmas_embed", "contracts.generator", "contracts.image", "contracts.merge", "contracts.pyramidio", "contracts.study", "contracts.multitan", "contracts.multiwcs", "contracts.toastsample", "contracts.toastgeom", "contracts.toastgen"]
+CONTRACT_MODULES = ["contracts.specfuns", "contracts.lemmas_desc", "contracts.pyramid", "contracts.parallel", "contracts.walk", "contracts.reducer", "contracts.lemmas_embed", "contracts.generator", "contracts.image", "contracts.merge", "contracts.pyramidio", "contracts.study", "contracts.multitan", "contracts.multiwcs", "contracts.toastsample", "contracts.toastgeom", "contracts.toastgen", "contracts.progressc"]
 FUNCTIONS = [
     "toasty.par_util.ensure_workers_ok",
     "toasty.par_util.put_checking_workers",
@@ -21,6 +21,7 @@ FUNCTIONS = [
     "toasty.multi_wcs._mp_tile_worker",
     "toasty.pyramid.Pyramid.visit_leaves",
     "toasty.pyramid.Pyramid.walk",
+    "toasty.progress.progress_bar",
 ]
 LEMMAS = []
 SLOW = ()
